@@ -22,6 +22,7 @@ func (d *LimbDom) runAsm(in *Interp, site ssa.Instruction, fn *ssa.Function, af 
 		in.PosOverride = in.P.RelFile(i.File) + fmt.Sprintf(":%d", i.Line)
 		in.Undecided(nil, "asm %q: %s", i.Text, fmt.Sprintf(format, a...))
 	}
+	frame := map[int64]Val{}
 	mem := func(i asm.Inst, op asm.Operand) Ptr {
 		p, ok := regs[op.Reg].(Ptr)
 		if !ok {
@@ -43,7 +44,32 @@ func (d *LimbDom) runAsm(in *Interp, site ssa.Instruction, fn *ssa.Function, af 
 		case asm.Imm:
 			return Int{V: new(big.Int).SetUint64(op.Imm)}
 		case asm.Mem:
+			if op.Reg == "SP" {
+				v, ok := frame[op.Off]
+				if !ok {
+					und(i, "read of a stack slot that has not been written")
+				}
+				return v
+			}
 			return in.Load(nil, mem(i, op))
+		case asm.MemIdx:
+			// base + index*scale + off (LEAQ): plain integer arithmetic
+			b, okb := regs[op.Reg]
+			x, okx := regs[op.Reg2]
+			if !okb || !okx {
+				und(i, "read of undefined register in %s", op.Text)
+			}
+			if _, isP := b.(Ptr); isP {
+				und(i, "address arithmetic on a pointer")
+			}
+			if _, isP := x.(Ptr); isP {
+				und(i, "address arithmetic on a pointer")
+			}
+			v := in.binop(nil, token.ADD, b, in.binop(nil, token.MUL, x, Int{V: new(big.Int).SetUint64(op.Imm)}, u64, u64), u64, u64)
+			if op.Off != 0 {
+				v = in.binop(nil, token.ADD, v, Int{V: big.NewInt(op.Off)}, u64, u64)
+			}
+			return v
 		case asm.FP:
 			idx := int(op.Off / 8)
 			if idx >= len(args) {
@@ -69,6 +95,13 @@ func (d *LimbDom) runAsm(in *Interp, site ssa.Instruction, fn *ssa.Function, af 
 		case asm.Reg:
 			regs[op.Reg] = v
 		case asm.Mem:
+			if op.Reg == "SP" {
+				if op.Off%8 != 0 || op.Off < 0 || op.Off+8 > af.FrameSize {
+					und(i, "stack slot outside the declared frame")
+				}
+				frame[op.Off] = v
+				return
+			}
 			in.Store(nil, mem(i, op), v)
 		default:
 			und(i, "destination %s", op.Text)
@@ -85,6 +118,11 @@ func (d *LimbDom) runAsm(in *Interp, site ssa.Instruction, fn *ssa.Function, af 
 		case "MOVQ", "MOVD":
 			if n != 2 {
 				und(i, "operand count")
+			}
+			write(i, i.Ops[1], read(i, i.Ops[0]))
+		case "LEAQ":
+			if n != 2 || i.Ops[0].Kind != asm.MemIdx {
+				und(i, "LEAQ other than base+index*scale arithmetic")
 			}
 			write(i, i.Ops[1], read(i, i.Ops[0]))
 		case "MULQ":
